@@ -10,6 +10,7 @@ import ExecModel.Res
 import ExecModel.Key
 import ExecModel.Props.C20
 import ExecModel.Lts.Cache
+import ExecModel.Lts.FileExec
 import ExecModel.Proofs.SysLiveDefs
 /-!
   `modeld` — line protocol driver: one JSON object per line in, one JSON value per line out.
@@ -508,9 +509,63 @@ def plotOps (op : String) (j : Json) : Except String (Option Json) := do
           ("label", Json.str e.label)])).toArray)]))
   | _ => pure none
 
+/-! ### FileExec: replay of file-mode session histories -/
+
+def fileOps (op : String) (j : Json) : Except String (Option Json) := do
+  match op with
+  | "file_replay" =>
+    let vj ← j.getObjVal? "variant"
+    let v : FileExec.Variant := { depsLaunchedOnly := ← getBool vj "depsLaunchedOnly", staleInputRemoved := ← getBool vj "staleInputRemoved" }
+    let sessions := (← j.getObjValAs? (Array Json) "sessions").toList
+    let parseL (e : Json) : Except String FileExec.Label := do
+      let p := (e.getObjValAs? Nat "p").toOption.getD 0
+      let k := (e.getObjValAs? Nat "k").toOption.getD 0
+      match ← getStr e "l" with
+      | "submit" => pure .submit | "take" => pure .take | "lookup" => pure .lookup
+      | "writeInput" => pure .writeInput | "launch" => pure .launch | "collect" => pure (.collect k)
+      | "pLoad" => pure (.pLoad p) | "pCall" => pure (.pCall p) | "pStage" => pure (.pStage p)
+      | "pWrite" => pure (.pWrite p) | "pPublish" => pure (.pPublish p)
+      | "crashProc" => pure (.crashProc p) | "crashWrite" => pure (.crashWrite p)
+      | x => throw s!"unknown file label {x}"
+    let jState (s : FileExec.State Nat Int) : Json :=
+      Json.mkObj [("loop", Json.str (reprStr s.loop)), ("queue", toJson s.queue), ("memory", Json.str (reprStr s.memory)),
+        ("procs", Json.str (reprStr (s.procs.map (fun p => (p.key, p.call, reprStr p.pc))))),
+        ("dir", Json.str (reprStr s.dir)), ("dropped", toJson s.dropped)]
+    let rec go (dir : FileExec.Dir Nat Int) (acc : List Json) : List Json → Except String Json
+      | [] => pure (Json.mkObj [("accepted", true), ("sessions", Json.arr acc.reverse.toArray)])
+      | sj :: rest => do
+        let ncalls ← getNat sj "ncalls"
+        let deps := (← sj.getObjValAs? (Array (Array Nat)) "deps").toList.map (·.toList)
+        let weights := (← sj.getObjValAs? (Array (Array Int)) "weights").toList.map (·.toList)
+        let base := (← sj.getObjValAs? (Array Int) "base").toList
+        let keyOf := (← sj.getObjValAs? (Array Nat) "keyOf").toList
+        let labels ← (← sj.getObjValAs? (Array Json) "labels").toList.mapM parseL
+        let depsF : Nat → List Nat := fun i => deps.getD i []
+        let keyF : Nat → Nat := fun i => keyOf.getD i 0
+        let evalF : Nat → List Int → Int := fun i vs =>
+          base.getD i 0 + ((weights.getD i []).zip vs).foldl (fun a wv => a + wv.1 * wv.2) 0
+        let s0 : FileExec.State Nat Int := FileExec.init (FileExec.restart dir) ncalls
+        let rec replay (s : FileExec.State Nat Int) (idx : Nat) : List FileExec.Label → Except (Nat × FileExec.State Nat Int) (FileExec.State Nat Int)
+          | [] => .ok s
+          | l :: ls => match FileExec.step v ncalls depsF keyF evalF s l with
+            | some s' => replay s' (idx + 1) ls
+            | none => .error (idx, s)
+        match replay s0 0 labels with
+        | .ok s =>
+          let r := Json.mkObj [
+            ("futures", Json.arr ((List.range ncalls).map (fun i => match FileExec.futOf s i with
+              | .finished x => toJson x
+              | _ => Json.null)).toArray),
+            ("loop_dead", Json.bool (s.loop == .dead)), ("dropped", toJson s.dropped), ("executed", toJson s.executed),
+            ("published", Json.arr ((s.dir.filter (fun e => e.2.out.isSome)).map (fun e => Json.arr #[toJson e.1, toJson (e.2.out.getD 0)])).toArray)]
+          go s.dir (r :: acc) rest
+        | .error (idx, s) => pure (Json.mkObj [("accepted", false), ("session", toJson acc.length), ("index", toJson idx), ("state", jState s)])
+    pure (some (← go [] [] sessions))
+  | _ => pure none
+
 end H
 
-def handlers : List (String → Json → Except String (Option Json)) := [H.cmdOps, H.presetOps, H.wireOps, H.sysOps, H.argsOps, H.resOps, H.keyOps, H.plotOps]
+def handlers : List (String → Json → Except String (Option Json)) := [H.cmdOps, H.presetOps, H.wireOps, H.sysOps, H.argsOps, H.resOps, H.keyOps, H.plotOps, H.fileOps]
 
 def handle (line : String) : Json :=
   match Json.parse line with
